@@ -163,4 +163,34 @@ def inplace_contract(meth, op):
 
 INPLACE = [inplace_contract(m, op) for m, op in RS.INPLACE_DUNDERS.items()]
 
-CONTRACTS = [MK_VALUE, GET_VALUE] + GETVALS + OVERLOADS + BUILTINS + [EXPR_PROP] + INPLACE
+# ---------------------------------------------------------------- _set_value: exactly one store, at the evaluated owner / key
+def set_value_contract(cname, kind):
+    def stores(n):
+        if "__stores" not in n:
+            return []
+        return getattr(n, "__stores").items
+
+    def post(o, n, r):
+        me = o.self.t
+        st = stores(n)
+        if len(st) != 1:
+            return z3.BoolVal(False)
+        k_, ow, ky, vv = st[0].items
+        return z3.And(z3.BoolVal(k_.s == kind), ow.t == val(fld["_owner"](me)), ky.t == val(fld["_key"](me)), vv.t == o.value.t,
+                      valx(fld["_owner"](me)) == OK, valx(fld["_key"](me)) == OK)
+    return Contract(
+        module=M, qualname=f"{cname}._set_value", params=dict(self=TObj(cname), value=TV),
+        requires=[("class", lambda s: cls_of(s.self.t) == C[cname])],
+        axioms=[background, lambda s: z3.And(*RS.class_axioms_at(s.self.t))],
+        ensures=[("one-store-at-evaluated-owner-and-key", post)],
+        raises={"PyExc": dict(when=lambda s: z3.Or(valx(fld["_owner"](s.self.t)) != OK, valx(fld["_key"](s.self.t)) != OK),
+                              exact=True, no_frame=True,
+                              post=[("nothing-stored", lambda o, n: z3.BoolVal("__stores" not in n))])},
+        min_obligations=2, extra=dict(ENG),
+        note="the location written is the one _get_value reads: owner and key are evaluated when they are references "
+             "(computed keys included); evaluation failures propagate before anything is stored")
+
+
+SETVALS = [set_value_contract("AttrRef", "attr"), set_value_contract("ItemRef", "item")]
+
+CONTRACTS = [MK_VALUE, GET_VALUE] + GETVALS + OVERLOADS + BUILTINS + [EXPR_PROP] + INPLACE + SETVALS
